@@ -18,7 +18,7 @@ configurations are explored with an unbounded deviation budget, i.e. completely.
 """
 from __future__ import annotations
 
-import itertools
+import gc
 
 from mitmproxy.proxy.layers import http as http_layer
 from mitmproxy.proxy.layers.http import HTTPMode
@@ -501,7 +501,8 @@ class Sys:
             fields = [(b":method", b"POST" if len(script) > 1 else b"GET"), (b":scheme", b"http"), (b":authority", HOST),
                       (b":path", b"/" + m), (b"x-m", m)]
             if cfg["up"] == "h1" and len(script) > 1:
-                declared = len(body) if not client_resets(cfg["cs"][i]) else len(body) + 7
+                ends = any(x[0] in ("E", "T") or (x[0] in ("H", "D") and x[-1] is True) for x in script)
+                declared = len(body) if ends else len(body) + 7  # a stream reset mid-body had announced more
                 fields.append((b"content-length", b"%d" % declared))
             self.coutbox += c.headers(sid, fields, end=a[1])
         elif a[0] == "D":
@@ -934,6 +935,8 @@ def chunk_fn(chunk):
 
 def run(ctx):
     sp = specs(ctx.tier)
+    # everything imported so far is immortal: keep the collector (and, after fork, copy-on-write) away from it
+    gc.freeze()
     ctx.bounds = {
         "configurations": len(sp),
         "client_shapes": {k: ["".join(str(x) for x in a) for a in v] for k, v in CLIENT_SHAPES.items()},
